@@ -554,6 +554,13 @@ pub fn codec_in(rng: &mut Rng) -> Case {
 }
 
 fn auth_challenge(g: &mut Gen) {
+    if g.rng.chance(1, 8) {
+        // the shortest AUTH the standard allows: remaining length 0 = reason 0x00, no properties
+        g.broker(BrokerPkt::Auth { reason: 0, props: Props::new(), form: Form::Shortest });
+        g.push(Step::Deliver { n: usize::MAX });
+        g.settle();
+        return;
+    }
     let mut props = Props::new().with(pid::AUTH_METHOD, PropVal::Str(rand_string(g.rng, false)));
     if g.rng.chance(2, 3) {
         props.push(pid::AUTH_DATA, PropVal::Bin(rand_bytes(g.rng, false)));
